@@ -83,26 +83,42 @@ def returns_of(func):
     return out
 
 
+def _is_noise(st):
+    """docstring-like / pure expression statements that do nothing a caller can rely on."""
+    return isinstance(st, ast.Pass) or (isinstance(st, ast.Expr) and not isinstance(st.value, (ast.Yield, ast.YieldFrom, ast.Await)))
+
+
 def is_abstract_body(func):
-    """Body is only a docstring / pass / raise NotImplementedError."""
+    """Body is only a docstring / pass / raise NotImplementedError (plus expression statements before the raise)."""
     body = list(func.node.body)
     if body and isinstance(body[0], ast.Expr) and isinstance(body[0].value, ast.Constant) \
             and isinstance(body[0].value.value, str):
         body = body[1:]
     if not body:
         return "abstractmethod" in func.decorators
-    if len(body) == 1:
-        st = body[0]
-        if isinstance(st, ast.Raise) and st.exc is not None:
-            e = st.exc
-            if isinstance(e, ast.Call):
-                e = e.func
-            if isinstance(e, ast.Name) and e.id == "NotImplementedError":
-                return True
-            if isinstance(e, ast.Attribute) and e.attr == "NotImplementedError":
-                return True
-        if isinstance(st, ast.Pass) and "abstractmethod" in func.decorators:
+    st = body[-1]
+    if isinstance(st, ast.Raise) and st.exc is not None and all(_is_noise(x) and not norm_calls_self(x) for x in body[:-1]):
+        e = st.exc
+        if isinstance(e, ast.Call):
+            e = e.func
+        if isinstance(e, ast.Name) and e.id == "NotImplementedError":
             return True
+        if isinstance(e, ast.Attribute) and e.attr == "NotImplementedError":
+            return True
+    if len(body) == 1 and isinstance(st, ast.Pass) and "abstractmethod" in func.decorators:
+        return True
+    return False
+
+
+def norm_calls_self(st):
+    """does the statement call a method on self (then it is not noise)?"""
+    for c in ast.walk(st):
+        if isinstance(c, ast.Call) and isinstance(c.func, ast.Attribute):
+            r = c.func.value
+            while isinstance(r, ast.Attribute):
+                r = r.value
+            if isinstance(r, ast.Name) and r.id == "self":
+                return True
     return False
 
 
